@@ -498,6 +498,16 @@ func checkTreeBuilder(c *Ctx, g *ebnfGrammar) {
 		return
 	}
 	tokLit, prodLit := lits[0], lits[1]
+	// the rule reads the two callbacks handed to Parse: func(*Token) error and func(int) error, each working on a stack of
+	// nodes; closures of another type (builders that return the node and leave the stack to a shared helper) are another shape
+	isCallback := func(fl *ast.FuncLit, nParams int) bool {
+		sig, _ := info.TypeOf(fl).(*types.Signature)
+		return sig != nil && sig.Params().Len() == nParams && sig.Results().Len() == 1 && isErrorType(sig.Results().At(0).Type())
+	}
+	if !isCallback(tokLit, 1) || !isCallback(prodLit, 1) {
+		c.Undecided("R11.4", "tree builder closures", fd.Pos(), "the closures that build the tree are not the token and production callbacks themselves (func(*Token) error, func(int) error): how leaves and interior nodes reach the stack is not read off this shape")
+		return
+	}
 	// leaf: one push of a LeafNode whose fields are the token's
 	pushes := 0
 	ast.Inspect(tokLit.Body, func(n ast.Node) bool {
